@@ -56,6 +56,8 @@ class CFG:
         self._try_depth = 0
         out = self._seq(func_node.body, [(self.entry, "")], None)
         self._connect(out, self.exit)
+        self.flags: List[str] = []
+        self._thread_flags()
         self._index()
 
     # ---- construction -------------------------------------------------------------
@@ -239,6 +241,142 @@ class CFG:
             raise AnalysisError("match statement not supported by the CFG builder")
         n = self._simple(st, pending, frame)
         return [(n, "")]
+
+    # ---- flag threading ------------------------------------------------------------
+    def _find_flags(self) -> List[str]:
+        """Locals that are only ever bound by `x = True / False / None` and that some branch test
+        reads: the graph is split per value of these, so that `ok = False ... if not ok: return`
+        is followed path-sensitively (a helper that reports success through a boolean, once inlined,
+        has exactly this shape)."""
+        binds: Dict[str, List] = {}
+        bad: Set[str] = set()
+        a = self.func.args
+        for x in a.posonlyargs + a.args + a.kwonlyargs + ([a.vararg] if a.vararg else []) + ([a.kwarg] if a.kwarg else []):
+            bad.add(x.arg)
+        const_targets = set()
+        for n in walk_local(self.func, include_root=False):
+            if isinstance(n, ast.Assign) and len(n.targets) == 1 and isinstance(n.targets[0], ast.Name) \
+                    and isinstance(n.value, ast.Constant) and (n.value.value is None or isinstance(n.value.value, bool)):
+                binds.setdefault(n.targets[0].id, []).append(n)
+                const_targets.add(id(n.targets[0]))
+            elif isinstance(n, (ast.Global, ast.Nonlocal)):
+                bad |= set(n.names)
+            elif isinstance(n, ast.ExceptHandler) and n.name:
+                bad.add(n.name)
+            elif isinstance(n, (ast.Import, ast.ImportFrom)):
+                for al in n.names:
+                    bad.add((al.asname or al.name).split(".")[0])
+        for n in walk_local(self.func, include_root=False):
+            if isinstance(n, ast.Name) and isinstance(n.ctx, (ast.Store, ast.Del)) and id(n) not in const_targets:
+                bad.add(n.id)
+        # a name captured by a nested function could be rebound there (nonlocal): keep it simple
+        for n in ast.walk(self.func):
+            if isinstance(n, FUNC_TYPES + (ast.Lambda,)) and n is not self.func:
+                for m in ast.walk(n):
+                    if isinstance(m, ast.Name) and m.id in binds:
+                        bad.add(m.id)
+        tested = set()
+        for nd in self.nodes:
+            if nd.kind == "test":
+                for m in ast.walk(nd.ast):
+                    if isinstance(m, ast.Name):
+                        tested.add(m.id)
+        return sorted(f for f in binds if f not in bad and f in tested)
+
+    @staticmethod
+    def _ev(test, val: Dict[str, object]):
+        """Three-valued evaluation of a branch test under a flag valuation ('U' = unknown)."""
+        U = "U"
+        if isinstance(test, ast.Name) and test.id in val:
+            v = val[test.id]
+            return U if v == U else bool(v)
+        if isinstance(test, ast.Constant):
+            return bool(test.value)
+        if isinstance(test, ast.UnaryOp) and isinstance(test.op, ast.Not):
+            r = CFG._ev(test.operand, val)
+            return U if r == U else (not r)
+        if isinstance(test, ast.BoolOp):
+            rs = [CFG._ev(v, val) for v in test.values]
+            if isinstance(test.op, ast.And):
+                if any(r is False for r in rs):
+                    return False
+                return True if all(r is True for r in rs) else U
+            if any(r is True for r in rs):
+                return True
+            return False if all(r is False for r in rs) else U
+        if isinstance(test, ast.Compare) and len(test.ops) == 1 and isinstance(test.left, ast.Name) and test.left.id in val \
+                and isinstance(test.comparators[0], ast.Constant):
+            v = val[test.left.id]
+            c = test.comparators[0].value
+            if v == U or not (c is None or isinstance(c, bool)):
+                return U
+            op = test.ops[0]
+            if isinstance(op, (ast.Is, ast.Eq)):
+                return v is c
+            if isinstance(op, (ast.IsNot, ast.NotEq)):
+                return v is not c
+        return U
+
+    def _thread_flags(self):
+        flags = self._find_flags()
+        if not flags or len(flags) > 3:
+            return
+        self.flags = flags
+        old_nodes, old_succ = self.nodes, self.succ
+        assigns: Dict[int, Tuple[str, object]] = {}
+        for nd in old_nodes:
+            if nd.kind == "stmt" and isinstance(nd.ast, ast.Assign) and len(nd.ast.targets) == 1 \
+                    and isinstance(nd.ast.targets[0], ast.Name) and nd.ast.targets[0].id in flags and isinstance(nd.ast.value, ast.Constant):
+                assigns[nd.id] = (nd.ast.targets[0].id, nd.ast.value.value)
+        fixed = {self.entry, self.exit, self.raise_exit}
+        init = tuple("U" for _ in flags)
+        new_nodes: List[Node] = []
+        new_succ: Dict[int, List[Tuple[int, str]]] = {}
+        ids: Dict[Tuple[int, tuple], int] = {}
+
+        def get(old, v):
+            key = (old, init if old in fixed else v)
+            if key not in ids:
+                o = old_nodes[old]
+                tag = o.copy
+                if key[1] != init:
+                    tag = (tag + "|" if tag else "") + ",".join("%s=%s" % (f, x) for f, x in zip(flags, key[1]) if x != "U")
+                n = Node(len(new_nodes), o.kind, o.ast, tag)
+                new_nodes.append(n)
+                new_succ[n.id] = []
+                ids[key] = n.id
+                work.append(key)
+            return ids[key]
+
+        work: List[Tuple[int, tuple]] = []
+        for f in (self.entry, self.exit, self.raise_exit):
+            get(f, init)
+        while work:
+            old, v = work.pop()
+            src = ids[(old, v)]
+            after = v
+            if old in assigns:
+                name, c = assigns[old]
+                after = tuple(c if f == name else x for f, x in zip(flags, v))
+            verdict = "U"
+            if old_nodes[old].kind == "test":
+                verdict = self._ev(old_nodes[old].ast, dict(zip(flags, v)))
+            for (d, l) in old_succ[old]:
+                if verdict is True and l == "F":
+                    continue
+                if verdict is False and l == "T":
+                    continue
+                state = v if l == "exc" else after
+                dst = get(d, state)
+                if (dst, l) not in new_succ[src]:
+                    new_succ[src].append((dst, l))
+        self.nodes = new_nodes
+        self.succ = new_succ
+        self.pred = {n.id: [] for n in new_nodes}
+        for a_, lst in new_succ.items():
+            for (b_, l) in lst:
+                self.pred[b_].append((a_, l))
+        self.entry, self.exit, self.raise_exit = ids[(self.entry, init)], ids[(self.exit, init)], ids[(self.raise_exit, init)]
 
     # ---- indexes -----------------------------------------------------------------
     def _index(self):
